@@ -120,6 +120,18 @@ func envU64(name string, def uint64) uint64 {
 func runOne(t *testing.T, spec Spec, verifSeed uint64, run int, tier string, d *Decider, keepTrace bool, plan map[string]int) RunResult {
 	res := RunResult{Run: run, Seed: RunSeed(verifSeed, run), Plan: plan}
 	start := time.Now()
+	// wall-clock watchdog (outside the bubble, real time): a run that does not end - a goroutine
+	// spinning without ever blocking keeps the bubble from going idle - ends the process with
+	// all stacks, and the driver takes it from there
+	if wall := envInt("VERIF_RUN_WALL_S", 0); wall > 0 {
+		wd := time.AfterFunc(time.Duration(wall)*time.Second, func() {
+			fmt.Printf("RUN-HANG property=%s run=%d: no end after %d s of wall-clock time\n", spec.Property, run, wall)
+			buf := make([]byte, 1<<20)
+			os.Stdout.Write(buf[:runtime.Stack(buf, true)])
+			os.Exit(3)
+		})
+		defer wd.Stop()
+	}
 	t.Run(fmt.Sprintf("run%d", run), func(t *testing.T) {
 		cryptotest.SetGlobalRandom(t, res.Seed)
 		mathrand.Seed(int64(res.Seed >> 1))
